@@ -211,8 +211,8 @@ def drive(PositionGrid, alg, N, text, order_seed=0):
         calls = [pg.get_all_position_volumes, pg.get_adjacency_of_position_grid, pg.get_borders_of_position_grid,
                  pg.get_distances_of_position_grid]
         random.Random(order_seed).shuffle(calls)
-        for c in calls:
-            c()
+        from vlib.rec import call_and_hold
+        call_and_hold(calls, "C05.returned_object_stable")
         if order_seed % 2 == 0:
             for c in calls[::-1]:  # repeated calls on the same object must still satisfy the oracle
                 c()
